@@ -27,7 +27,7 @@ RULE = ("streams of good frames with bad frames at generated positions; distinct
         "least one bad frame was followed by a good frame whose processing was compared with the twin's.")
 ASSUMPTIONS = ["a frame whose GN headers the strict reference parser accepts is not 'bad' for the twin comparison: it is given to both twins (its payload may still be undecodable for the facility); only liveness is judged for it",
                "a wall-clock watchdog (60 s per frame) ends a run as inconclusive, never as a violation"]
-REQUIRED_COUNTERS = ["frames_fed", "bad_frames_fed", "twin_comparisons", "good_after_bad_compared", "liveness_checks", "cv2x_loop_frames", "ignored_mac_frames"]
+REQUIRED_COUNTERS = ["frames_fed", "bad_frames_fed", "twin_comparisons", "good_after_bad_compared", "liveness_checks", "cv2x_loop_frames", "ignored_mac_frames", "good_frames_delivery_judged"]
 
 OWN_MAC = bytes.fromhex("02aabbccdd01")
 BCAST = b"\xff" * 6
